@@ -31,6 +31,8 @@ class Spec:
     tag: str = ""                       # distinguishes .do variants with otherwise equal specs
     noise: int = 0                      # >0: write tagged lines to stderr (1: whole+split+long lines, 2: also a record-like line, 4: also an unterminated last line)
     seq: Tuple[Tuple[str, Tuple[str, ...]], ...] = ()   # "driver": commands run in order inside this one script, failures recorded not fatal
+    ulimit_n: int = 0                   # the script lowers its limit of open files before it asks for its dependencies (what it starts cannot create pipes)
+    fail_kill: bool = False             # the failure is the script being killed by a signal (kill -KILL $$) instead of exit 7
     fail_undeclared: bool = False       # the fail flag is read without declaring it as a dependency
     post: Tuple[str, ...] = ()          # dependencies requested AFTER the output was written (and redo-stamp has run)
     arg1: str = ""                      # (set by the reference model) $1 of the rule that matched
@@ -176,6 +178,8 @@ def script_text(spec: Spec, variant: int, dofile: str, gates: bool = False) -> s
         return core
 
     L.append('c=""')
+    if spec.ulimit_n:
+        L.append('ulimit -n %d' % spec.ulimit_n)
     if spec.noise == 8 and deps:
         # "checking for x... " -- a partial line, and the nested build starts right behind it
         L.append('printf "L $1 7 partial line before the dependencies: " >&2')
@@ -244,7 +248,8 @@ def script_text(spec: Spec, variant: int, dofile: str, gates: bool = False) -> s
             L.append(ifchange([fl]))
             kp()
         we = 'vgate n "work-end $rv_n"; ' if gates else ""
-        L.append(f'if [ "$(cat "{fl}")" = 1 ]; then echo "F $rv_n" >> "$RV_TRACE"; {we}exit 7; fi')
+        how = "kill -KILL $$; sleep 5" if spec.fail_kill else "exit 7"
+        L.append(f'if [ "$(cat "{fl}")" = 1 ]; then echo "F $rv_n" >> "$RV_TRACE"; {we}{how}; fi')
         kp()
     sync("mid")
     if spec.wreck:
